@@ -1,3 +1,4 @@
+(* model: c16-codec *)
 (* drv_codec.ml: runs the extracted C16 models on the script of
    harness/wb_codec.c and prints the same observation lines; lines starting
    with "spec" evaluate the extracted CodecSpec (reference receiver, grammar
